@@ -820,6 +820,8 @@ pub enum ReversedError {
 pub struct Step {
     iter: KIterator,
     step: u64,
+    // The number of values that still have to be stepped over before the next value is yielded
+    pending: u64,
 }
 
 impl Step {
@@ -828,7 +830,11 @@ impl Step {
         if step == 0 {
             Err(StepError::StepCantBeZero)
         } else {
-            Ok(Self { iter, step })
+            Ok(Self {
+                iter,
+                step,
+                pending: 0,
+            })
         }
     }
 }
@@ -838,6 +844,7 @@ impl KotoIterator for Step {
         let result = Self {
             iter: self.iter.make_copy()?,
             step: self.step,
+            pending: self.pending,
         };
         Ok(KIterator::new(result))
     }
@@ -847,20 +854,37 @@ impl Iterator for Step {
     type Item = Output;
 
     fn next(&mut self) -> Option<Self::Item> {
-        let result = self.iter.next();
-        for _ in 0..self.step - 1 {
-            // An error thrown while producing a stepped-over value still has to be reported
-            if let Some(error @ Output::Error(_)) = self.iter.next() {
-                return Some(error);
+        // The stepped-over values are skipped lazily, right before the next value is needed:
+        // nothing is pulled from the input on behalf of an output that nobody has asked for.
+        while self.pending > 0 {
+            self.pending -= 1;
+            match self.iter.next() {
+                // An error thrown while producing a stepped-over value still has to be reported
+                Some(error @ Output::Error(_)) => return Some(error),
+                Some(_) => {}
+                None => {
+                    // The input is exhausted, there's nothing left to step over
+                    self.pending = 0;
+                    return None;
+                }
             }
+        }
+
+        let result = self.iter.next();
+        if result.is_some() {
+            self.pending = self.step - 1;
         }
         result
     }
 
     fn size_hint(&self) -> (usize, Option<usize>) {
         let step = self.step as usize;
+        let pending = self.pending as usize;
         let (lower, upper) = self.iter.size_hint();
-        (lower / step, upper.map(|upper| upper / step))
+        (
+            lower.saturating_sub(pending).div_ceil(step),
+            upper.map(|upper| upper.saturating_sub(pending).div_ceil(step)),
+        )
     }
 }
 
